@@ -161,7 +161,12 @@ Candidates(i) ==
       <<7>> \o EStr(PropNameStr(Len(st.propnames))), <<8>> \o EStr(PropNameStr(i)) \o EU(i % 2),
       <<9>> \o EStr(PropStr(Len(st.propstrings))), <<10>> \o EStr(PropStr(i)) \o EU(i % 2),
       <<29>>, <<0>>, <<15>>, <<16>>,
-      <<11>> \o EStr(<<76>>) \o <<3, 5, 4, 1, 2>>, <<12>> \o EStr(<<77>>) \o <<0, 1, 9>> }
+      <<11>> \o EStr(<<76>>) \o <<3, 5, 4, 1, 2>>, <<12>> \o EStr(<<77>>) \o <<0, 1, 9>>,
+      \* extension records (skipped by the reader, which reports UnsupportedRecord)
+      <<30>> \o EU(7) \o EStr(<<120>>), <<31>> \o EU(7) \o EStr(<<120, 121>>) \o EU(3), <<32>> \o EU(1) \o EStr(<<1, 2, 3>>),
+      <<33, Pick(<<27, 0, 24, 31, 4>>, i)>> \o EU(2) \o F(Pick(<<27, 0, 24, 31, 4>>, i), 1, EW(LayerV(i)))
+            \o F(Pick(<<27, 0, 24, 31, 4>>, i), 2, EW(LayerV(i + 1))) \o EStr(<<9, 9>>)
+            \o XYR(Pick(<<27, 0, 24, 31, 4>>, i), Geo(i, 1), 16, 8, 4) }
 
 \* ---- legality of a candidate in the current state --------------------------------------------
 \* name records must keep their table consistent with the universe; a cell name is used once;
@@ -180,7 +185,7 @@ CandOK(r) ==
             /\ nm # NameStr(3)
             /\ \A c \in DOMAIN st.cells :
                    (IF st.cells[c].name[1] = "num" THEN NameStr(st.cells[c].name[2]) ELSE st.cells[c].name[2]) # nm
-      [] r.k \in {28, 29} -> lastk \notin {0, 15, 16, 11, 12} /\ (r.k = 29 => lastk # -1)
+      [] r.k \in {28, 29} -> lastk \notin {0, 15, 16} /\ (r.k = 29 => lastk # -1)
       [] OTHER -> TRUE
 
 \* file-level choices.  "pairs" keeps them few and varies the palette salt and the prefix instead
